@@ -37,15 +37,16 @@ def gen_dary(rng, nops):
             name = pick(rng, [("P", 50), ("O", 48), ("C", 2)])
         else:
             name = pick(rng, [("P", 45), ("O", 35), ("S", 8), ("B", 5), ("C", 3), ("UA", 4)])
-        if name == "P": k, p = kp(); ops.append("P,%d,%d" % (k, p)); size += 1
+        if rng.chance(1, 25): ops.append(rng.choice(["Y", "Z", "V,%d" % rng.below(40)])); continue   # copies/moves/reserve
+        if name == "P": k, p = kp(); ops.append("%s,%d,%d" % (rng.choice(["P", "PR"]), k, p)); size += 1   # const& / && overload
         elif name == "O":
-            if size or rng.chance(1, 10): ops.append("O"); size = max(0, size - 1)
+            if size or rng.chance(1, 10): ops.append(rng.choice(["O", "OX"])); size = max(0, size - 1)   # pop / extract_top
         elif name == "S": k, p = kp(); ops.append("S,%d,%d" % (k, p)); dirty = True
         elif name == "UA": ops.append("UA"); dirty = False
         elif name == "B":
             n = rng.choice([0, 1, 2, 3, d, d + 1, d + 2, 2 * d + 1, rng.below(30)])
             l = [kp() for _ in range(n)]
-            ops.append("B," + ";".join("%d:%d" % x for x in l)); size = n; dirty = False
+            ops.append(rng.choice(["B", "Bi", "Bm"]) + "," + ";".join("%d:%d" % x for x in l)); size = n; dirty = False   # 3 overloads
         elif name == "C": ops.append("C"); size = 0; dirty = False
     if dirty: ops.append("UA")
     ops.append("D")
@@ -61,10 +62,12 @@ def gen_addr(rng, nops):
     if kt == 8 and rng.chance(1, 4): nk = 255; hi = 254          # largest legal uint8_t key
     mode = rng.below(4)      # 0 mixed, 1 update heavy (both directions), 2 rebuild heavy, 3 remove heavy
     ops = []; cont = set(); prio = {}; dirty = False
+    kr = max(1, min(nk, 40) - 3)        # the contains() bitmap (nk keys) also covers keys beyond the handle table
     def key():
         if hi is not None and rng.chance(1, 3): return hi - rng.below(3)
-        return rng.below(min(nk, 40))
+        return rng.below(kr)
     while len(ops) < nops:
+        if rng.chance(1, 25): ops.append(rng.choice(["Y", "Z", "V,%d" % rng.below(nk + 4)])); continue
         if dirty:
             name = pick(rng, [("S", 40), ("UA", 45), ("B", 8), ("C", 7)])
         elif mode == 1:
@@ -77,11 +80,18 @@ def gen_addr(rng, nops):
             name = pick(rng, [("P", 35), ("O", 15), ("R", 15), ("U", 20), ("S", 5), ("B", 5), ("C", 2), ("UA", 3)])
         if name == "P":
             k = key()
-            if k not in cont or rng.chance(1, 10): p = rng.below(pmax); ops.append("P,%d,%d" % (k, p)); cont.add(k); prio[k] = p
+            if k not in cont or rng.chance(1, 10):
+                p = rng.below(pmax); ops.append("%s,%d,%d" % (rng.choice(["P", "PR"]), k, p)); cont.add(k); prio[k] = p
+                if rng.chance(1, 3) and k >= 2:
+                    # right after a push that may have grown handles_: update()/remove() of a smaller key (often a
+                    # never-inserted key in the gap): update inserts it, remove is skipped by the harness if absent
+                    g = rng.below(k); p2 = rng.below(pmax)
+                    if rng.chance(2, 3): ops.append("U,%d,%d" % (g, p2)); cont.add(g); prio[g] = p2
+                    else: ops.append("R,%d" % g); cont.discard(g)
         elif name == "R":
             if cont: k = rng.choice(sorted(cont)) if rng.chance(9, 10) else key(); ops.append("R,%d" % k); cont.discard(k)
         elif name == "O":
-            ops.append("O")
+            ops.append(rng.choice(["O", "OX"]))
             if cont:
                 best = (max if rv else min)(prio.get(k, 0) for k in cont)
                 cont.discard([k for k in sorted(cont) if prio.get(k, 0) == best][0])
@@ -96,7 +106,7 @@ def gen_addr(rng, nops):
                 if k not in ks: ks.append(k)
             l = []
             for k in ks: prio[k] = rng.below(pmax); l.append("%d:%d" % (k, prio[k]))
-            ops.append("B," + ";".join(l)); cont = set(ks); dirty = False
+            ops.append(rng.choice(["B", "Bi", "Bm"]) + "," + ";".join(l)); cont = set(ks); dirty = False
         elif name == "C": ops.append("C"); cont = set(); dirty = False
     if dirty: ops.append("UA")
     ops.append("D")
@@ -117,8 +127,10 @@ def gen_radix(rng, nops):
         if r < 55: return rng.choice([hi, hi - 1, frontier])
         return frontier + rng.below(hi - frontier + 1)
     while len(ops) < nops:
-        name = pick(rng, [("P", 30), ("E", 15), ("T", 14), ("O", 22), ("W", 6 if mode != 4 else 20), ("K", 10), ("C", 2)])
-        if name in ("P", "E"):
+        if rng.chance(1, 30): ops.append(rng.choice(["Y", "Z"])); continue          # copy / move round trips
+        name = pick(rng, [("P", 45), ("T", 14), ("O", 22), ("W", 6 if mode != 4 else 20), ("K", 10), ("C", 2)])
+        if name == "P": name = rng.choice(["P", "E", "F", "H", "G"])   # push / emplace / emplace_keyfirst / *_bucket variants
+        if name in ("P", "E", "F", "H", "G"):
             k = key()
             if k < frontier or k > hi: continue
             ops.append("%s,%x,%d" % (name, k & ((1 << w) - 1), rng.below(50))); cont.append(k)
